@@ -472,6 +472,31 @@ fn c12a_padding_then_eof() {
     core::mem::forget(r);
 }
 
+// C12-A / C04 / C05: the input ends INSIDE the magic of a following stream (file cut 1..=5 bytes into a later stream): an
+// error, never "no more streams" (the data of the later streams would be missing silently).
+//@ {"name":"c12a_truncated_next_magic","props":["C12","C04","C05"],"obligation":"C12-A","timeout":900,"functions":["xz::reader::XZReader::try_start_next_stream"],"bounds":"p in {0, 4} zero bytes of stream padding, then the first k in 1..=5 bytes of the XZ magic, then end of input; unwind 8","assumes":[]}
+#[kani::proof]
+#[kani::unwind(8)]
+fn c12a_truncated_next_magic() {
+    let four: bool = kani::any();
+    let p: usize = if four { 4 } else { 0 };
+    let k: usize = kani::any();
+    kani::assume(k >= 1 && k <= 5);
+    let mut buf = [0u8; 10];
+    let mut i = 0;
+    while i < 5 {
+        buf[p + i] = XZ_MAGIC[i];
+        i += 1;
+    }
+    let mut src = Src::<10>::new(buf, p + k);
+    let mut r = fresh_reader(&mut src, true);
+    let res = r.try_start_next_stream();
+    assert!(res.is_err(), "C12-A: input that ends inside the next stream's magic was taken for the end of the data");
+    kani::cover!(k == 1, "only the first magic byte is present");
+    kani::cover!(k == 5 && four, "five magic bytes after padding");
+    core::mem::forget(r);
+}
+
 // C12-A: a non-zero, non-magic byte after the padding is an error, never a silent end of data.
 //@ {"name":"c12a_garbage_after_stream","props":["C12","C04"],"obligation":"C12-A","timeout":900,"functions":["xz::reader::XZReader::try_start_next_stream"],"bounds":"p in 0..=4 zero bytes, then 6 arbitrary bytes not equal to the XZ magic with a non-zero first byte; unwind 8","assumes":[]}
 #[kani::proof]
